@@ -3,12 +3,13 @@
 # two command-line tools, into /verif/.build/full/<flavour>; also builds the LD_PRELOAD shim.
 set -e
 FL=${1:-rel}
-B=/verif/.build/full/$FL
-mkdir -p $B /verif/.build/shim
+VR=${VERIF_ROOT:-/verif}
+B=$VR/.build/full/$FL
+mkdir -p $B $VR/.build/shim
 CF=""
 [ "$FL" = san ] && CF="-O1 -g -fsanitize=address,undefined -fno-sanitize-recover=all"
 if [ ! -f $B/build.ninja ]; then
   cmake -G Ninja -S ${REPO:-/repo} -B $B ${CF:+-DCMAKE_BUILD_TYPE=Debug -DCMAKE_C_FLAGS="$CF" -DCMAKE_CXX_FLAGS="$CF"} >$B/cmake.log 2>&1 || { cat $B/cmake.log >&2; exit 3; }
 fi
 ninja -C $B ascon asconcrypt asconsum >$B/ninja.log 2>&1 || { tail -30 $B/ninja.log >&2; exit 3; }
-gcc -shared -fPIC -O1 -o /verif/.build/shim/shim.so /verif/harness/shim_preload.c -ldl
+gcc -shared -fPIC -O1 -o $VR/.build/shim/shim.so $VR/harness/shim_preload.c -ldl
